@@ -116,7 +116,14 @@ def analyse(task):
                 seq2.append((c, args))
         e.notes['seq2'] = seq2
         return e2.run_e2(I, flags, seq2, argv_seq=task.get('argv_seq'), numerics=numerics)
-    paths = E.explore(body)
+    try:
+        paths = E.explore(body)
+    except S.Inconclusive as ex:
+        # exploration budget exhausted (the code forks on symbolic quotas more than the budget allows): what was
+        # explored is still analysed, the rest is inconclusive
+        paths = getattr(ex, 'paths', [])
+        res['obligations'] += 1
+        res['unknown'] += 1
     res['paths'] = len(paths)
     res['queries'] += E.stats['solver_queries']
     res['solver_time'] += E.stats['solver_time']
@@ -327,7 +334,7 @@ def analyse(task):
                         d = dict(base)
                         d.update(_model_data(J, m2, x=x))
                         res['cex'].append({
-                            'tag': '%s/%s/%s' % (name, '+'.join(sorted(flags)) or '-', seq_name(seq)),
+                            'tag': '%s/%s/%s' % (name, '+'.join(sorted(flags)) or '-', seq_name(seq[-1:])),
                             'what': 'an optimal point of the final integer program is not a %s matching' % name,
                             'form': name, 'data': d})
             # vacuity twin: the final problem has a point at all
